@@ -444,7 +444,7 @@ func (s *sim) backup() {
 	k.hash = dirHash(s.ckDir(k))
 	s.cks = append(s.cks, k)
 	s.nbackup++
-	c.Log("backup", "%d files=%d latestSnap=%d", k.index, len(strings.Fields(k.hash)), s.latestSnap)
+	c.Log("backup", "%d latestSnap=%d", k.index, s.latestSnap) // (the number of files depends on the timing of the real RocksDB background threads: not part of the trace)
 }
 
 func (s *sim) live() []*ckpt {
